@@ -186,10 +186,12 @@ def _check_transforms(prior, ref, rng, bad):
                 vals[k] = phys[..., fi]
                 fi += 1
             elif kind == 'fixed':
-                vals[k] = np.full(np.shape(phys[..., 0]), p)
+                vals[k] = np.full(np.shape(phys[..., 0]), float(p))
         for k, kind, p in ref.items:
             want = vals[ref.target(k)]
             gotv = np.asarray(dic[k])
+            if gotv.dtype == object:          # e.g. ones * Fraction: compare numerically
+                gotv = gotv.astype(float)
             if gotv.shape != np.shape(want):
                 bad('prior.dict-shape', 'dictionary entry %s has shape %s, want %s'
                     % (k, gotv.shape, np.shape(want)))
